@@ -145,6 +145,32 @@ def run(ctx):
         if out != show_list(padded, lambda r: show_list(r), ";"):
             ctx.violation("correspondence-break", "splitAndPad vs split_joint_labels+pad_missing_labels",
                           dict(cases[ci], model=out))
+    # ---------------- LARGE joint stackings (10^5 rows and more: sizes at which an implementation may switch to a
+    # chunked / concurrent / memory-mapped path): a long series followed by short ones, long ones in between
+    if ctx.replay is None or ctx.replay.get("large"):
+        plans = [ctx.replay["large"]] if ctx.replay is not None else \
+            ([[60000, 6, 50000, 5, 7]] if ctx.quick() else [[60000, 6, 50000, 5, 7], [150000, 6, 150000, 5, 90000, 7], [100, 200000]])
+        for lens_l in plans:
+            Wl, Nl = 3, 2
+            rs = np.random.RandomState(len(lens_l) + sum(lens_l) % 1000)
+            arrs_l = [rs.randn(L, Nl) for L in lens_l]
+            multi = dp.stack_training_data_multiple_series(list(arrs_l), Wl)
+            ok = multi.shape == (sum(L - Wl + 1 for L in lens_l), Nl * Wl)
+            if ok:
+                row0 = 0
+                for a in arrs_l:
+                    n_ = a.shape[0] - Wl + 1
+                    want = np.hstack([a[j:j + n_, :] for j in range(Wl)])      # cell (i, jN+k) = a[i+j, k]
+                    if not np.array_equal(bits(multi[row0:row0 + n_]), bits(want)):
+                        ok = False
+                        break
+                    row0 += n_
+            if not ok:
+                ctx.violation("impl-violation", f"joint stacking of series of lengths {lens_l} (W={Wl}, N={Nl}) is not the row-wise "
+                              "concatenation, in input order, of the individual stackings", {"large": lens_l}, {"site": "stack-multi-large"})
+            ctx.count("large_joint_stackings")
+            ctx.case(("large", tuple(lens_l)), nontrivial=True)
+
     # the functions TRANSLATED from the source (Generated/Kernels.lean) on the same inputs
     ctx.gen_compare("stack_training_data", [g for g in gen_stack if g[0].split(" ")[0] not in ("-", "")])
     ctx.gen_compare("split_joint_labels", gen_split + [("0,1,2 2,2", "err AssertionError", {})])
